@@ -450,7 +450,15 @@ def rule_slot_index(prog):
             continue
         params = {i: f.local_name(i) for i in range(1, f.nargs + 1)}
         idxp = [i for i, nm in params.items() if nm == "idx"]
-        if not idxp:
+        if not idxp or (f.local_ty(idxp[0]) or "") not in ("i8", "i16", "i32", "i64", "isize"):
+            # the slot as a value of an enum (`WaitingSlot::Primary | Extra(usize)`): the main slot cannot be mistaken for entry 0
+            # by a comparison any more - the clause holds by construction
+            enum_params = [i for i in range(1, f.nargs + 1) if (prog.adts.get(f.local_adt(i) or "") or {}).get("kind") == "enum"
+                           and (f.local_adt(i) or "").startswith("kanata_keyberon::layout::")]
+            if enum_params and name != "drop_waiting":
+                res.fn(f)
+                res.inst("%s/slot-is-an-enum" % name, where=f.loc, type=f.local_adt(enum_params[0]), ok=True)
+                res.oblige(True)
             continue
         res.fn(f)
         k = 0
